@@ -320,6 +320,42 @@ def fold_miter(ck: Checker, R: str):
     ck.assume('build_miter is folded over a bounded family of circuit pairs (<= 2 inputs, <= 2 gates, <= 2 outputs) with an oracle for top_sort')
 
 
+def fold_repeated_connectors(ck: Checker, R: str):
+    """right_connect with one attached gate feeding two base inputs (a repeated other_connectors entry): the call must be
+    refused, or both base inputs must be driven by that gate."""
+    repo = ck.repo
+    M = new_model(repo)
+    mod = M.mod
+    fn = mod.func('Circuit.connect_circuit')
+    probs = []
+    n = 0
+    for (bspec, bouts), (ospec, oouts) in itertools.product(BASES, OTHERS[:2]):
+        binputs = [l for l, t, _ in bspec if t == 'INPUT']
+        oinputs = [l for l, t, _ in ospec if t == 'INPUT']
+        for g in [l for l, t, _ in ospec if t != 'INPUT'][:2]:
+            n += 1
+            TC, OC = binputs[:2], [g, g]
+            base, other = M.new_circuit(bspec, bouts), M.new_circuit(ospec, oouts)
+            _, err = M.call(base, 'connect_circuit', other, list(TC), list(OC), right_connect=True, name='blk')
+            if err:
+                continue   # refusing the call is fine
+            s = cm.snapshot(base)
+            left = [a for a in TC if a in s['inputs']]
+            if left:
+                probs.append(f'connect_circuit(other, {TC}, {OC}, right_connect=True): base input(s) {left} stay unconnected inputs although they were to be driven by {g}')
+                continue
+            for bits in itertools.product((False, True), repeat=len(s['inputs'])):
+                a = dict(zip(s['inputs'], bits))
+                ov = values(ospec, {x: a['blk@' + x] for x in oinputs})
+                bv = values(bspec, {x: (ov[g] if x in TC else a[x]) for x in binputs})
+                got = state_values(base, a)
+                if any(got[o] != bv[o] for o in bouts if o in got):
+                    probs.append(f'connect_circuit(other, {TC}, {OC}, right_connect=True): a base output does not compute the composition on {a}')
+                    break
+    ck.check(not probs, R, mod, fn, f'right_connect with a repeated other_connectors entry is refused or wires every listed base input ({n} compositions)', '; '.join(probs[:2]),
+             construct='connect_circuit(right_connect=True) with a repeated other_connectors entry')
+
+
 def fold_wrappers(ck: Checker, R: str):
     """Each convenience wrapper produces exactly the state that connect_circuit produces with the connector
     lists its documentation names (connect_circuit itself is decided by fold_connect)."""
